@@ -603,8 +603,8 @@ impl BRC20ProgEngine {
                 db.get_tx_receipt(tx_hash.bytes)
                     .ok()
                     .flatten()
-                    .expect("Transaction in block not found in database")
-                    .transaction_index
+                    // A receipt can be missing after an interrupted commit: that is not a reason to bring the server down
+                    .map(|receipt| receipt.transaction_index)
             });
             let mut trace_hash_str = String::new();
             for tx_hash in transactions {
